@@ -45,6 +45,15 @@ pub fn run<A: Cx>(d: &mut Drv<A>, scale: usize, all: bool) {
             }
         }
         d.emit(json!({"op": "new", "dst": 5, "c": A::NAME, "via": "new", "cap": 0}));
+        // values that came in through bitvec's own types (spare capacity, a bit slice at an offset)
+        let k = d.rng.range(0, 2 * 64 / w + 3);
+        let xs = d.rand_syms(k);
+        let via = *d.rng.pick(&["bv", "bvcap", "bs"]);
+        let pad = d.rng.range(0, 130);
+        d.emit(json!({"op": "fromsyms", "dst": 6, "c": A::NAME, "via": via, "pad": pad, "syms": xs}));
+        for fmt in FORMATS {
+            d.emit(json!({"op": "serde", "dst": 7, "r": 6, "fmt": fmt}));
+        }
         for r in 0..6 {
             for fmt in FORMATS {
                 d.emit(json!({"op": "serde", "dst": 8 + (r % 4), "r": r, "fmt": fmt}));
